@@ -88,7 +88,8 @@ def run(chk: Check) -> None:
         "subsets / block_list subsets / HGI entry / enforcement / active gateway (unknown, known, unlisted, blocked); the "
         "real _is_wanted_addrs on a real PortProtocol vs the model and vs the property text, also asked before the gateway "
         "is identified and again (twice) after; end-to-end delivery and "
-        "send refusal on a sample; non-trivial = distinct (config, src, dst, direction)"
+        "send refusal on a sample; a real ramses_rf.Gateway with the lists configured, fed live packets and a restored packet "
+        "cache, gateway id known or not: which devices exist; non-trivial = distinct (config, src, dst, direction)"
     )
 
     known_sets = [[], [LISTED], [LISTED, LISTED2, BOTH], [LISTED, LISTED2, BOTH, GWY], [LISTED, GWY, FOREIGN]]
@@ -200,10 +201,94 @@ def run(chk: Check) -> None:
                                       {"op": "send", "frame": str(cmd), "known": known, "block": block, "enforce": enforce, "active": active})
 
     asyncio.run(body())
+    gateway_part(chk, rnd, thorough)
     chk.extra["configurations"] = len(configs)
     chk.exhaustive = thorough
     chk.sample({"config": {"known": [LISTED], "block": [BLOCKED], "enforce": True, "active": GWY}, "src": UNLISTED, "dst": LISTED, "wanted": False})
     D.run()
+
+
+def gateway_part(chk: Check, rnd: random.Random, thorough: bool) -> None:
+    """The second layer: a real `ramses_rf.Gateway` (its own `get_device` filter, the dispatcher) with the lists configured,
+    fed live packets and - the restart path - a saved packet cache, with the gateway's own id known or not.  Whatever the
+    route, no device may exist for an id that is blocked, or (enforced known list) neither listed nor the active gateway;
+    and every listed, un-blocked device that was heard exists."""
+    from .. import gwrig
+
+    ids = {"ctl": "01:145038", "trv": "04:056053", "unl_ctl": "01:222222", "unl_trv": "04:111111", "blk": "13:444444", "both": "04:555555"}
+
+    def frames_of(d: str) -> list[str]:
+        if d[:2] == "01":
+            return [f" I --- {d} --:------ {d} 1F09 003 FF073F", f" I --- {d} --:------ {d} 2309 003 0007D0"]
+        if d[:2] == "13":
+            return [f" I --- {d} --:------ {d} 3EF0 003 00C8FF"]
+        return [f" I --- {d} --:------ {d} 30C9 003 0007D0", f" I --- {d} --:------ 01:145038 3150 002 0064"]
+
+    n = 60 if thorough else 16
+    for ep in range(n):
+        enforce = rnd.random() < 0.8
+        with_hgi_entry = rnd.random() < 0.4
+        gwy_known = rnd.random() < 0.5
+        known = {ids["ctl"]: {}, ids["trv"]: {}, ids["both"]: {}}
+        if with_hgi_entry:
+            known[gwrig.GWY_ID] = {"class": "HGI"}
+        block = {ids["blk"]: {}, ids["both"]: {}} if rnd.random() < 0.7 else {}
+        heard = [k for k in ids if rnd.random() < 0.8]
+        cache_ids = [k for k in heard if rnd.random() < 0.6]
+        live_ids = [k for k in heard if k not in cache_ids or rnd.random() < 0.3]
+        base = gwrig.BASE
+        from datetime import timedelta as td_
+
+        cache = {}
+        t = 0
+        for k in cache_ids:
+            for fr in frames_of(ids[k]):
+                t += 1
+                cache[(base - td_(seconds=600 - t)).isoformat(timespec="microseconds")] = "045 " + fr
+
+        async def body(loop, known=known, block=block, enforce=enforce, gwy_known=gwy_known, cache=cache, live_ids=live_ids):
+            rig = gwrig.Rig(loop, config={"enforce_known_list": enforce}, known_list=known, block_list=block or None,
+                            gwy_id=gwrig.GWY_ID if gwy_known else None)
+            err = None
+            try:
+                await rig.start(cached_packets=cache or None)
+            except Exception as e:  # noqa: BLE001
+                err = repr(e)
+                return {"error": err, "devices": []}
+            for k in live_ids:
+                for fr in frames_of(ids[k]):
+                    await rig.feed(fr)
+                    await asyncio.sleep(0.5)
+            devs = sorted(d.id for d in rig.gwy.devices)
+            await rig.stop()
+            return {"error": None, "devices": devs}
+
+        try:
+            res, _ = gwrig.run(body)
+        except Exception as e:  # noqa: BLE001
+            chk.violation(f"gwy.run_died:{type(e).__name__}", f"gateway run raised {e!r}", {"op": "gateway", "known": list(known), "block": list(block)})
+            continue
+        chk.evaluations += 1
+        chk.count("gateway.episodes")
+        rep = {"op": "gateway", "known": list(known), "block": list(block), "enforce": enforce, "gateway_id_known": gwy_known,
+               "cached": list(cache.values()), "live": [ids[k] for k in live_ids]}
+        if res["error"]:
+            chk.count("gateway.start_raised")
+            continue
+        chk.nontrivial.add(("gateway", tuple(sorted(known)), tuple(sorted(block)), enforce, gwy_known, tuple(cache_ids), tuple(live_ids)))
+        eff_enforce = enforce  # (a non-empty known list with enforcement asked for stays enforced)
+        for d in res["devices"]:
+            if d in block:
+                chk.violation("gwy.device.blocked", f"a device exists for the block-listed id {d} (devices: {res['devices']})", rep)
+            elif eff_enforce and d not in known and d != gwrig.GWY_ID and d != gwrig.HGI_ID:
+                chk.violation("gwy.device.unlisted:" + ("cache" if any(d in v for v in cache.values()) else "live"),
+                              f"known list enforced, yet a device exists for the unlisted id {d} (devices: {res['devices']})", rep)
+        for k in heard:
+            d = ids[k]
+            allowed = d not in block and (not eff_enforce or d in known)
+            if allowed and d not in res["devices"] and (k in live_ids or k in cache_ids):
+                chk.violation("gwy.device.missing", f"{d} is allowed and was heard ({'live' if k in live_ids else 'cache'}), but no device exists for it "
+                              f"(devices: {res['devices']})", rep)
 
 
 def replay(chk: Check, path: str) -> int:
